@@ -143,6 +143,7 @@ theorem no_trace_of_absent {nm : Names} {s : State} {id : Id} (hi : Inv s) (hc :
   have sM : Safe id bMembers := safe_reserved hc (by simp [reserved])
   have sD : Safe id bDep := safe_reserved hc (by simp [reserved])
   have sBo : Safe id bBoss := safe_reserved hc (by simp [reserved])
+  have sCh : Safe id bChief := safe_reserved hc (by simp [reserved])
   have sP : Safe id bPals := safe_reserved hc (by simp [reserved])
   have sPO : Safe id bPalsOf := safe_reserved hc (by simp [reserved])
   have sRB : Safe id bRcB := safe_reserved hc (by simp [reserved])
@@ -211,14 +212,15 @@ theorem no_trace_of_absent {nm : Names} {s : State} {id : Id} (hi : Inv s) (hc :
       · exact hn
       · exact hm
     simp only [renderA, List.mem_append, List.mem_cons, List.mem_nil_iff, or_false, mem_optBucket] at hl
-    rcases hl with ((((((((rfl | rfl | rfl | rfl | rfl | rfl) | hl) | ⟨gs, hg, hl⟩) | ⟨c, hrc, hl⟩) | ⟨ps, hpe, hl⟩) |
+    rcases hl with ((((((((rfl | rfl | rfl | rfl | rfl | rfl | rfl) | hl) | ⟨gs, hg, hl⟩) | ⟨c, hrc, hl⟩) | ⟨ps, hpe, hl⟩) |
       ⟨ms, hmo, hl⟩) | ⟨ms, hme, hl⟩) | hl) | hl
     · exact not_mentions_bucket hp
     · exact not_mentions_kv hp sNk (safe_typed (hc.name j e hj))
     · exact not_mentions_kv hp sAk (safe_optField hc.nil (fun a ha => hc.alias j e a hj ha))
     · exact not_mentions_kv hp sOw (safe_optField hc.nil (refB e.owner (hi.ownerExists j e hj)))
     · exact not_mentions_kv hp sD (safe_optField hc.nil (refB e.dep (hi.depExists j e hj)))
-    · exact not_mentions_kv hp sBo (safe_optField hc.nil (refA e.boss (fun hne => hi.boss j e hj hne (by simp))))
+    · exact not_mentions_kv hp sBo (safe_optField hc.nil (refA e.boss (fun hne => hi.boss.boss j e hj hne (by simp))))
+    · exact not_mentions_kv hp sCh (safe_optField hc.nil (refA e.chief (fun hne => hi.boss.chief j e hj hne)))
     · exact not_mentions_listBucket hc.ne (hp2 _ sR) (fun r hr => hc.roles j e r hj hr) l hl
     · refine not_mentions_listBucket hc.ne (hp2 _ sG) ?_ l hl
       intro g hgm
